@@ -99,6 +99,8 @@ type pathState struct {
 	wantModel bool
 	failsAll  string
 	opaqueInts int
+	knownDeadlockID   string
+	knownDeadlockCond *value
 	decided   map[*term]bool // conditions already implied by / added to the path condition
 }
 
